@@ -2,7 +2,7 @@
    Statements only; model in Sect/Sections.v, specification in Sect/SectionsSpec.v,
    proofs in Sect/SectionsProofs.v. *)
 From Coq Require Import List Arith Bool.
-From MV Require Import Base.Res Sect.Sections Sect.SectionsSpec Sect.SectionsProofs.
+From MV Require Import Base.Res Sect.Sections Sect.SectionsSpec Sect.SectionsProofs Sect.SectionsDoc.
 Import ListNotations.
 
 (* For every token tree whose heading tags are >= 1 (h1..h6; any nesting of containers, directives
@@ -51,6 +51,20 @@ Theorem C05_skip_warnings : forall ls, Forall (fun l => 1 <= l) ls ->
     filter non_warn (log s) = map (exp_edge ls) (seq 0 (length ls)).
 Proof. exact skip_warnings. Qed.
 Print Assumptions C05_skip_warnings.
+
+(* Whole documents: headings at document level interleaved with arbitrary other blocks, containers with
+   headings at any depth, directive bodies, and {include}s with any heading-offset (nested includes too).
+   With hl = the document-level headings (heading number, effective level = tag + offset of the innermost
+   include) in source order: the sections are exactly one per such heading, in source order, each under
+   the section of the heading that the specification names for the level sequence (or the document); the
+   warnings are exactly one per upward skip of more than one level.  Headings below containers do not
+   appear here at all (they are rubrics, C05_nested_headings_are_rubrics). *)
+Theorem C05_document_sections : forall ts, forallb tags_ok ts = true -> forallb no_titles ts = true ->
+  exists s, render_document ts = Ok s /\
+    secs (log s) = flat_map (exp_sec (doc_headings_list 0 0 ts)) (seq 0 (length (doc_headings_list 0 0 ts))) /\
+    warns (log s) = flat_map (exp_warn_ids (doc_headings_list 0 0 ts)) (seq 0 (length (doc_headings_list 0 0 ts))).
+Proof. exact document_sections. Qed.
+Print Assumptions C05_document_sections.
 
 (* A container (block quote, list item, ...) rendered in any state: whatever it contains (headings at
    any depth, includes, directives that do not ask for titles), no section and no header warning is
@@ -106,6 +120,15 @@ Proof. vm_compute. reflexivity. Qed.
 Example C05_example_nested :
   match render_document [THeading 1; TContainer [THeading 1; TInclude 2 [THeading 2]]; TDirective false [THeading 3]; THeading 2] with
   | Ok s => secs (log s) = [(Doc, 0); (Sec 0, 4)] /\ rubs (log s) = [(1, 1); (2, 4); (3, 3)]
+  | Raise _ => False
+  end.
+Proof. vm_compute. repeat split. Qed.
+
+Example C05_example_document :
+  let ts := [THeading 1; TContainer [THeading 1]; TInclude 2 [THeading 1; TPara; THeading 2; TInclude 1 [THeading 1]]; THeading 2] in
+  doc_headings_list 0 0 ts = [(0, 1); (2, 3); (3, 4); (4, 2); (5, 2)] /\
+  match render_document ts with
+  | Ok s => secs (log s) = [(Doc, 0); (Sec 0, 2); (Sec 2, 3); (Sec 0, 4); (Sec 0, 5)] /\ warns (log s) = [(2, 1, 3)]
   | Raise _ => False
   end.
 Proof. vm_compute. repeat split. Qed.
